@@ -369,6 +369,16 @@ pub struct Sim {
     pub cq_ghost_tail: u64,
     pub sq_ghost_head: u64,
     pub enabled: bool,
+    /// IORING_SETUP_SINGLE_ISSUER: the issuer of the ring (Linux: `ctx->submitter_task`). It is the
+    /// thread that created the ring, unless the ring was created with IORING_SETUP_R_DISABLED: then
+    /// nobody yet, and the thread that enables it (IORING_REGISTER_ENABLE_RINGS) becomes the issuer.
+    /// `None` on rings without the flag. Any other thread's `io_uring_enter` (rings without a
+    /// kernel thread: with SQPOLL the call only wakes the kernel thread and is not checked) and
+    /// `io_uring_register` on the ring's descriptor fail with EEXIST before doing anything.
+    /// IORING_REGISTER_SEND_MSG_RING with descriptor -1 is not a call on the ring and stays allowed.
+    pub submitter: Option<std::thread::ThreadId>,
+    /// Calls refused with EEXIST because the caller was not the issuer.
+    pub refused_not_issuer: u32,
     /// Poison free CQ slots so that reading an unpublished slot is visible.
     pub poison_free_slots: bool,
     /// Fault injection: the next `io_uring_enter` with GETEVENTS first posts these completions and
@@ -414,7 +424,7 @@ struct Global {
     /// whatever got it in between.
     pub close_eintr: u32,
     /// Called when a blocking wait has nothing to return; see `set_block_handler`.
-    block: Option<Box<dyn FnMut(i32) -> BlockAction + Send>>,
+    block: Option<Box<dyn FnMut(i32, bool) -> BlockAction + Send>>,
     pub last_errno_setup: Vec<Ev>,
 }
 
@@ -481,7 +491,9 @@ pub fn configure(cfg: SetupConfig) {
     global().pending = cfg;
 }
 
-pub fn set_block_handler(f: Option<Box<dyn FnMut(i32) -> BlockAction + Send>>) {
+/// `f(ring descriptor, the wait has a timeout)` decides what a blocking `io_uring_enter` with
+/// nothing to return does.
+pub fn set_block_handler(f: Option<Box<dyn FnMut(i32, bool) -> BlockAction + Send>>) {
     global().block = f;
 }
 
@@ -1042,6 +1054,12 @@ unsafe fn hook_setup(entries: c_uint, p: *mut c_void) -> Option<c_int> {
         cq_ghost_tail: 0,
         sq_ghost_head: 0,
         enabled: flags & SETUP_R_DISABLED == 0,
+        submitter: if flags & SETUP_SINGLE_ISSUER != 0 && flags & SETUP_R_DISABLED == 0 {
+            Some(std::thread::current().id())
+        } else {
+            None
+        },
+        refused_not_issuer: 0,
         poison_free_slots: false,
         fail_next_enter: None,
         sqpoll_auto: true,
@@ -1090,6 +1108,16 @@ unsafe fn hook_enter(
         if !sim.enabled {
             sim.log.push(Ev::Enter { to_submit, min_complete, flags, timeout, res: -libc::EBADFD });
             return err(libc::EBADFD);
+        }
+        // io_uring_enter -> io_uring_add_tctx_node -> __io_uring_add_tctx_node_from_submit: on a
+        // single-issuer ring only the issuer may enter (not checked on the SQPOLL path).
+        if sim.flags & SETUP_SINGLE_ISSUER != 0
+            && sim.flags & SETUP_SQPOLL == 0
+            && sim.submitter != Some(std::thread::current().id())
+        {
+            sim.refused_not_issuer += 1;
+            sim.log.push(Ev::Enter { to_submit, min_complete, flags, timeout, res: -libc::EEXIST });
+            return err(libc::EEXIST);
         }
         if flags & ENTER_GETEVENTS == 0 {
             if let Some(e) = sim.fail_next_plain_enter.take() {
@@ -1141,7 +1169,7 @@ unsafe fn hook_enter(
             let mut handler = g.block.take();
             drop(g);
             let action = match handler.as_mut() {
-                Some(h) => h(fd),
+                Some(h) => h(fd, timeout.is_some()),
                 None => crate::sched::default_block(fd, timeout.is_some()),
             };
             let mut g = global();
@@ -1175,6 +1203,11 @@ unsafe fn hook_register(fd: c_int, opcode: c_uint, arg: *const c_void, nr: c_uin
         // K6, synchronous variant: `arg` is an SQE whose `fd` names the target ring.
         let sqe = unsafe { (arg as *const Sqe).read() };
         let target = g.sims.iter_mut().rev().find(|s| s.fd == sqe.fd && !s.dead)?;
+        if !target.enabled {
+            // io_msg_ring: a target ring that is still disabled refuses messages.
+            target.log.push(Ev::Register { opcode, nr, res: -libc::EBADFD, detail: "msg_ring to a disabled ring".into() });
+            return err(libc::EBADFD);
+        }
         target.post(Cqe { user_data: sqe.off, res: sqe.len as i32, flags: 0 });
         target.log.push(Ev::Register { opcode, nr, res: 0, detail: format!("msg_ring ud={}", sqe.off) });
         return Some(0);
@@ -1182,6 +1215,14 @@ unsafe fn hook_register(fd: c_int, opcode: c_uint, arg: *const c_void, nr: c_uin
     let sim = g.sims.iter_mut().rev().find(|s| s.fd == fd && !s.dead)?;
     sim.note_if_closed();
     sim.check_counters();
+    // __io_uring_register: `if (ctx->submitter_task && ctx->submitter_task != current) return -EEXIST`.
+    if let Some(owner) = sim.submitter {
+        if owner != std::thread::current().id() {
+            sim.refused_not_issuer += 1;
+            sim.log.push(Ev::Register { opcode, nr, res: -libc::EEXIST, detail: "caller is not the issuer of this single-issuer ring".into() });
+            return err(libc::EEXIST);
+        }
+    }
     if let Some((op, e)) = sim.cfg.fail_register {
         if op == opcode {
             sim.log.push(Ev::Register { opcode, nr, res: -e, detail: "injected failure".into() });
@@ -1195,6 +1236,10 @@ unsafe fn hook_register(fd: c_int, opcode: c_uint, arg: *const c_void, nr: c_uin
                 -libc::EBADFD
             } else {
                 sim.enabled = true;
+                // io_register_enable_rings: the enabling thread becomes the issuer.
+                if sim.flags & SETUP_SINGLE_ISSUER != 0 && sim.submitter.is_none() {
+                    sim.submitter = Some(std::thread::current().id());
+                }
                 0
             }
         }
